@@ -189,7 +189,7 @@ func init() {
 		ID:    "C10",
 		Level: "model_checking",
 		Rule: "typed worlds: three dependencies (two named x, one whose name differs from its path); source file with import style per dependency in {plain, alias, dot} x moved item {function, function also using a source-local function (ResolveLocalPath), variable, statement} using each non-empty subset of the dependencies " +
-			"x target file (same or another package; optionally dot-importing a further package that exports the same names as the first dependency) with style per dependency in {absent, plain, alias, dot, alias equal to the package name of another dependency, blank import} x histories {single move (quick tier: the further histories for function and statement items using all three dependencies; thorough: everywhere), chain through a third file, two items, move back, move a Clone, and (same package) the target restored by a FileRestorer that restored the source file first, the item resting in (and being restored inside) the package it refers to before it moves on, and a swap (function items: the target's own code, the only user of its imports, moves out in the same edit)}; only type-correct source/target files are in the quantifier; decoration with the types-based resolver (of the whole source file, and of the moved declaration alone), restoration with an exact package-name map; " +
+			"x target file (same or another package; optionally dot-importing a further package that exports the same names as the first dependency) with style per dependency in {absent, plain, alias, dot, alias equal to the package name of another dependency, blank import} x histories {single move (quick tier: the further histories for function and statement items using all three dependencies; thorough: everywhere), chain through a third file, two items, move back, move a Clone, and (same package) the target restored by a FileRestorer that restored the source file first, the item resting in (and being restored inside) the package it refers to before it moves on, and a swap (quick: function items using one or all dependencies; the target's own code, the only user of its imports, moves out in the same edit)}; only type-correct source/target files are in the quantifier; decoration with the types-based resolver (of the whole source file, and of the moved declaration alone), restoration with an exact package-name map; " +
 			"oracle: the restored target type-checks and every moved identifier denotes the object of the same package path and name; state = (source styles, target styles, item, uses, history); non-trivial = every state",
 		Assumptions: []string{"go/types of this toolchain is the acceptance oracle", "no declaration of the generated targets shadows an import name (the property's proviso)"},
 		Units: func(tier string) []string {
@@ -256,7 +256,7 @@ func runC10(ctx *core.Ctx, unit int) {
 					if (uses == 7 && (item == "func" || item == "stmt")) || ctx.Thorough() {
 						hists = []string{"single", "chain", "two", "back", "clone", "reuse", "viadep"}
 					}
-					if item == "func" && tpkg == c10TgtPath || ctx.Thorough() {
+					if (item == "func" && (bitsSet(uses) == 1 || uses == 7) || ctx.Thorough()) && tpkg == c10TgtPath {
 						// a swap: the item moves in while the target's own code (the only user of its imports) moves out
 						hists = append(hists, "swap")
 					}
@@ -506,6 +506,9 @@ func c10Check(cs c10Case) (core.Outcome, bool) {
 		final, finalPath = third.file, cs.Third.Pkg
 	case "swap":
 		// in the same edit the target's own code - the only user of the target's imports - moves out
+		if findFunc(tgt.file, "keepTgt") == nil {
+			return core.Outcome{OK: true}, false // a target without code of its own: nothing to swap out
+		}
 		takeItem(tgt.file, "func", "keepTgt")
 	case "two":
 		d2, s2 := takeItem(src.file, "func", "Item2")
